@@ -3,5 +3,5 @@ CONSTANTS
   Defects = {}
   Big = TRUE
 SPECIFICATION Spec
-INVARIANTS HdrImplIsSem HdrLevelOrder OmittedAppends HdrVarResolved PathImplIsSem PrefixWins PathRuleSwapsWholePath HostImplIsSem RedirImplIsSem PfcImplIsSem TmoImplIsSem TryBelowGlobal EmitCase
+INVARIANTS HdrImplIsSem HdrLevelOrder OmittedAppends HdrVarResolved PathImplIsSem PrefixWins PathRuleSwapsWholePath HostImplIsSem RedirImplIsSem HopImplIsSem HopBothRewrite PfcImplIsSem TmoImplIsSem TryBelowGlobal EmitCase
 CHECK_DEADLOCK FALSE
